@@ -11,7 +11,10 @@ import (
 	"io"
 	"net/http"
 	"strings"
+	"sync"
+	"sync/atomic"
 	"testing"
+	"time"
 
 	"git.torproject.org/pluggable-transports/snowflake.git/v2/common/amp"
 	"git.torproject.org/pluggable-transports/snowflake.git/v2/common/messages"
@@ -440,4 +443,74 @@ func TestVerifC11AMPEquiv(t *testing.T) {
 		vstat.Run(uAMP, t, rt, c, true, labels, runAMPEquiv)
 	})
 	uAMP.JournalDone()
+}
+
+// ---------------------------------------------------------------------------
+// C20: real-time concurrent load through the real handlers (no fake clock), for the race
+// detector: every poll is matched promptly so nothing waits for a 10 s timeout.
+func TestVerifC20BrokerLoad(t *testing.T) {
+	u := vstat.New("C20", "c20_broker_load")
+	defer u.Flush()
+	sc := scenario{}
+	ctx, err := newContext(&sc, &bytes.Buffer{})
+	if err != nil {
+		t.Fatal(err)
+	}
+	go ctx.Broker()
+	mux := newMux(ctx)
+	rounds := vstat.Pick(6, 40)
+	for round := 0; round < rounds; round++ {
+		n := 24
+		var wg sync.WaitGroup
+		var inflight, maxInflight int64
+		for k := 0; k < n; k++ {
+			wg.Add(2)
+			sid := fmt.Sprintf("r%d-p%d", round, k)
+			go func() { // proxy: poll, then answer
+				defer wg.Done()
+				cur := atomic.AddInt64(&inflight, 1)
+				for {
+					m := atomic.LoadInt64(&maxInflight)
+					if cur <= m || atomic.CompareAndSwapInt64(&maxInflight, m, cur) {
+						break
+					}
+				}
+				defer atomic.AddInt64(&inflight, -1)
+				body, _ := messages.EncodeProxyPollRequestWithRelayPrefix(sid, "standalone", "unrestricted", 0, "")
+				rec, _ := serve(mux, "POST", "/proxy", nil, body, "203.0.113.5:1")
+				var pr messages.ProxyPollResponse
+				if json.Unmarshal(rec.Body.Bytes(), &pr) == nil && pr.Status == "client match" {
+					ab, _ := messages.EncodeAnswerRequest("answer-"+sid, sid)
+					serve(mux, "POST", "/answer", nil, ab, "")
+				}
+			}()
+			go func() { // client, retried until matched (a poll may not be registered yet)
+				defer wg.Done()
+				for try := 0; try < 200; try++ {
+					cb, _ := (&messages.ClientPollRequest{Offer: "offer-" + sid, NAT: "restricted"}).EncodeClientPollRequest()
+					rec, _ := serve(mux, "POST", "/client", nil, cb, "")
+					if strings.Contains(rec.Body.String(), "answer") {
+						return
+					}
+					time.Sleep(time.Millisecond)
+				}
+			}()
+		}
+		// metrics readers in parallel
+		wg.Add(1)
+		go func() {
+			defer wg.Done()
+			serve(mux, "GET", "/prometheus", nil, nil, "")
+			serve(mux, "GET", "/debug", nil, nil, "")
+			// what the broker's own logMetrics goroutine does every 24 h, concurrently with requests
+			ctx.metrics.printMetrics()
+			ctx.metrics.zeroMetrics()
+		}()
+		wg.Wait()
+		u.Case(round, maxInflight >= 2, fmt.Sprintf("max concurrent requests=%d", maxInflight))
+	}
+}
+
+func init() {
+	vstat.Register(vstat.New("C20", "c20_broker_load"), func(t *testing.T, round int) error { return nil })
 }
